@@ -317,7 +317,7 @@ def run(f, fixture, rep, cfg, tier):
                     from idioms import _closure_ret
                     ret, pn = _closure_ret(f, gt[2][1])
                     rr = render(ret) if ret is not None else ""
-                    ok = re.fullmatch(r"std::option::Option::<T>::is_some\((%s|std::iter::Iterator::next\(.*self\.files\)\))(<Some>\.0)?(\.1)?\.caps\)" % re.escape(pn or "?"), rr) is not None
+                    ok = re.fullmatch(r"std::option::Option::<T>::is_some\((%s|ELEM\([^()]*\(self\.files\)\)|std::iter::Iterator::next\(.*self\.files\)\))(<Some>\.0)?(\.1)?\.caps\)" % re.escape(pn or "?"), rr) is not None
         rep.check(ok, "R7", "rpmlib|%s|condition" % name, "rpmlib(%s) is required exactly when the feature is used" % name,
                   "rpmlib(%s) is guarded by %s" % (name, (guard or "nothing")[:120]), c.loc())
     extra = set(rows) - {n for n, _v in RPMLIB_ALWAYS} - {v[0] for v in RPMLIB_CODEC.values()} - set(RPMLIB_COND)
